@@ -290,7 +290,8 @@ def param_of_type(fn, *needles):
 
 
 def to_list_gates(chk, F):
-    fn = F.find(CORE, "runtime::eval::to_list")
+    # (normalised: `rest.iter().find(|x| first.unit != x.unit)` is the loop it stands for; guard helpers are in place)
+    fn = F.find(CORE, "runtime::eval::to_list", inline=True, keep=("conformance_err", "Option::<T>", "Result::<T, E>", "bool>::then"))
     fk = "rink_core::runtime::eval::to_list"
     TOP = (("arg", param_of_type(fn, "types::number::Number") or 2), ())
     divs = k2.call_blocks(fn, "types::numeric::Numeric::div_rem", "core::ops::arith::Div<&'b types::numeric::Numeric>>::div")
